@@ -87,6 +87,14 @@ pub const C36_PROGRAMS: [&str; 12] = [
 
 /// Build + compile one corpus program. `n` scales the input (number of items on the main input).
 pub fn build(name: &str, n: usize) -> Entry {
+    // building the flow / compiling the simulator dylib is machinery, not a verdict
+    match vf_explore::catch(|| build_inner(name, n)) {
+        Ok(e) => e,
+        Err(p) => crate::driver::machinery(&format!("building / compiling corpus program {name} failed: {p}")),
+    }
+}
+
+fn build_inner(name: &str, n: usize) -> Entry {
     let mut flow = FlowBuilder::new();
     let range: Vec<u32> = (1..=n as u32).collect();
     match name {
